@@ -21,6 +21,7 @@ import (
 	"os/exec"
 	"regexp"
 	"runtime"
+	"runtime/debug"
 	"sort"
 	"strings"
 	"sync"
@@ -55,15 +56,18 @@ type Obs struct {
 }
 
 type Case struct {
-	ID     int             `json:"id"`
-	Class  string          `json:"class"`
-	Method string          `json:"method"`
-	Path   string          `json:"path"`
-	Params []KV            `json:"params"`
-	Accept string          `json:"accept,omitempty"`
-	Script []ResultSet     `json:"script"`
-	Model  json.RawMessage `json:"model,omitempty"` // abstract description for the Coq model (nil = test-only case)
-	Obs    *Obs            `json:"obs,omitempty"`
+	ID          int             `json:"id"`
+	Class       string          `json:"class"`
+	Method      string          `json:"method"`
+	Path        string          `json:"path"`
+	Params      []KV            `json:"params"`
+	Accept      string          `json:"accept,omitempty"`
+	Body        string          `json:"body,omitempty"` // raw POST body (else the parameters are sent as a form)
+	ContentType string          `json:"ctype,omitempty"`
+	WaitMs      int             `json:"wait_ms,omitempty"` // how long goroutines may take to wind down after the response (default 900)
+	Script      []ResultSet     `json:"script"`
+	Model       json.RawMessage `json:"model,omitempty"` // abstract description for the Coq model (nil = test-only case)
+	Obs         *Obs            `json:"obs,omitempty"`
 }
 
 func unhex(s string) string {
@@ -153,7 +157,12 @@ func buildRequest(c *Case, ctx context.Context) *http.Request {
 	if method == "" {
 		method = "GET"
 	}
-	if method == "POST" {
+	if method == "POST" && c.Body != "" {
+		body = bytes.NewReader([]byte(c.Body))
+		if len(q) > 0 {
+			u += "?" + q.Encode()
+		}
+	} else if method == "POST" {
 		body = bytes.NewReader([]byte(q.Encode()))
 	} else {
 		if len(q) > 0 {
@@ -166,8 +175,11 @@ func buildRequest(c *Case, ctx context.Context) *http.Request {
 		// not a well-formed request line: the server would answer 400 before routing
 		return nil
 	}
-	if method == "POST" {
+	if method == "POST" && c.Body == "" {
 		req.Header.Set("Content-Type", "application/x-www-form-urlencoded")
+	}
+	if c.ContentType != "" {
+		req.Header.Set("Content-Type", c.ContentType)
 	}
 	if c.Accept != "" {
 		req.Header.Set("Accept", c.Accept)
@@ -227,15 +239,23 @@ func runCase(c *Case, deadline time.Duration) *Obs {
 	obs.Queries = atomic.LoadInt64(&queriesSeen) - q0
 	// goroutines started for the request must be gone; give the scheduler a moment
 	var left []gor
-	for i := 0; i < 40; i++ {
+	waitMs := c.WaitMs
+	if waitMs <= 0 {
+		waitMs = 900
+	}
+	tEnd := time.Now().Add(time.Duration(waitMs) * time.Millisecond)
+	for i := 0; ; i++ {
 		left = left[:0]
 		for id, g := range census() {
 			if _, ok := base[id]; !ok {
 				left = append(left, g)
 			}
 		}
-		if len(left) == 0 && atomic.LoadInt64(&openRows) <= rows0 {
+		if (len(left) == 0 && atomic.LoadInt64(&openRows) <= rows0) || time.Now().After(tEnd) {
 			break
+		}
+		if i > 30 {
+			i = 30
 		}
 		time.Sleep(time.Duration(2+i) * time.Millisecond)
 	}
@@ -282,6 +302,11 @@ func worker(casesPath, outPath string, deadline time.Duration, memMB uint64) {
 		put(marker{Start: &id})
 		obs := runCase(c, deadline)
 		put(marker{ID: &id, Obs: obs})
+		var ms runtime.MemStats
+		runtime.ReadMemStats(&ms)
+		if ms.HeapAlloc > 256<<20 {
+			debug.FreeOSMemory() // what an earlier request allocated must not decide the fate of a later one
+		}
 		if obs.Outcome == "hang" {
 			f.Close()
 			os.Exit(3) // the process is poisoned (a handler is still running): let the parent start a fresh one
@@ -385,7 +410,7 @@ func firstQrynFrame(st string) string {
 func main() {
 	isWorker := flag.Bool("worker", false, "run the cases of --cases in this process")
 	deadlineMs := flag.Int("deadline-ms", 4000, "per-request deadline")
-	memMB := flag.Uint64("mem-mb", 3072, "address-space limit of a worker (MiB), 0 = none")
+	memMB := flag.Uint64("mem-mb", 6144, "address-space limit of a worker (MiB), 0 = none")
 	par := flag.Int("par", 6, "parallel workers")
 	batchSz := flag.Int("batch", 60, "cases per worker process")
 	fl := hx.ParseFlags()
